@@ -48,6 +48,7 @@ type fnSpec struct {
 	errChan      bool // errors are reported by sending on errCh (recorded as effects), not returned
 	loop         bool // translate one iteration of the receive loop inside the function (see translate)
 	uses         map[string]bool // translated functions this one calls (filled while translating)
+	deleteEff    string            // `delete(m, k)` on a state map is also recorded as this effect (constructor:constant)
 	tbFatal      bool              // the function reports by t.Fatalf; its translation returns whether it passed
 	joins        bool              // translate the code after a branching statement once, as a local join point (see tryJoin)
 	selfRec      bool              // the function calls itself: the generated definition takes the function to call as its first argument (`self`)
@@ -758,6 +759,37 @@ var ribTableDelSpecs = []fnSpec{
 	tableDelSpec("DeleteNextHop", "deleteNextHop", "*aftpb.Afts_NextHopKey", "NHEntryC", "retrieveNH", "doDeleteNH", "*aft.Afts_NextHop", "3", false, nil),
 }
 
+func locklessSpec(goName, lean, table, keyName, keyType string, keyKind kind, kindNo string) fnSpec {
+	return fnSpec{
+		file: "rib/rib.go", goName: goName, recvType: "*RIBHolder", callAs: "niR." + goName + "§", leanName: lean,
+		params: []param{{goName: keyName, goType: keyType, lean: "key", kd: keyKind}},
+		goRets: "error", rets: []string{"err"},
+		oracleParams: []param{
+			{goName: "§hook", lean: "hook", kd: kPtr("Unit")},
+			{goName: "§name", lean: "name", kd: kStr},
+			{goName: "§now", lean: "now", kd: kInt},
+		},
+		oracles: map[string]oracle{
+			"r.postChangeHook": {results: []string{}, effect: "postHookTbl", args: []int{0, 2, 3}},
+			"r.decNHRefCount":  {results: []string{}, effect: "decNHRef", args: []int{-1, 0}},
+			"unixTS":           {results: []string{"§now"}},
+		},
+		subst:     map[string]string{"r.postChangeHook": "§hook", "r.name": "§name", "r": "§name"},
+		state:     []stateField{{goExpr: "r.r.Afts." + table, lean: "tbl", kd: kind{k: "map", s: "TblEntry", t: []kind{keyKind}}}},
+		effects:   true,
+		deleteEff: "tableDel:" + kindNo,
+		extConsts: map[string]string{"constants.Delete": "2"},
+	}
+}
+
+var ribLocklessSpecs = []fnSpec{
+	locklessSpec("locklessDeleteIPv4", "locklessDeleteIPv4", "Ipv4Entry", "prefix", "string", kStr, "4"),
+	locklessSpec("locklessDeleteIPv6", "locklessDeleteIPv6", "Ipv6Entry", "prefix", "string", kStr, "6"),
+	locklessSpec("locklessDeleteMPLS", "locklessDeleteMPLS", "LabelEntry", "label", "aft.Afts_LabelEntry_Label_Union", kNat, "1"),
+	locklessSpec("locklessDeleteNHG", "locklessDeleteNHG", "NextHopGroup", "id", "uint64", kNat, "2"),
+	locklessSpec("locklessDeleteNH", "locklessDeleteNH", "NextHop", "index", "uint64", kNat, "3"),
+}
+
 var ribTableSpecs = []fnSpec{
 	tableAddSpec("AddIPv4", "addIPv4", "*aftpb.Afts_Ipv4EntryKey", "IPv4EntryC", "ipv4Exists", "retrieveIPv4", "doAddIPv4", "*aft.Afts_Ipv4Entry", "4"),
 	tableAddSpec("AddIPv6", "addIPv6", "*aftpb.Afts_Ipv6EntryKey", "IPv6EntryC", "ipv6Exists", "retrieveIPv6", "doAddIPv6", "*aft.Afts_Ipv6Entry", "6"),
@@ -822,6 +854,7 @@ func init() {
 	specs = append(specs, ribSmallSpecs...)
 	specs = append(specs, ribTableSpecs...)
 	specs = append(specs, ribTableDelSpecs...)
+	specs = append(specs, ribLocklessSpecs...)
 	specs = append(specs, ribRefSpecs...)
 	specs = append(specs, ribDelSpec)
 	specs = append(specs, clientSpecs...)
